@@ -245,6 +245,10 @@ def monitorLease (sc : LScn) (entries : List String) : List (String × String) :
               if s.started && s.shutdownAt.isNone && !s.stopAsked && !s.crashed && !s.provisioning && s.parts != cnt &&
                   t0 + 2 * (mi + lat) + 20000000000 ≤ t then
                 m := m.add "C17" "set-shared-capacity-not-followed-by-re-provisioning"
+                -- ... and when the instance needs more than the stale list offers, capacity its own MaxCapacity()
+                -- advertises is never acquired although nothing fails
+                if s.target > s.parts && cnt > s.parts then
+                  m := m.add "C09" "needed-capacity-never-acquired:partition-list-left-at-a-stale-shared-capacity"
             | none => pure ()
             -- C06: MaxCapacity()
             let expMax := if sc.gen == 2 then s.reserved + (if s.shared > fac * 500 then fac * 500 else s.shared) else s.reserved + s.shared
